@@ -1497,6 +1497,20 @@ class GList(Sym):
     def truth(self, I):
         return I.truth(b_or(*[g for g, _ in self.items])) if self.items else False
 
+    def sym_truth(self):
+        """non-empty <=> some element is present (no fork)"""
+        return b_or(*[g for g, _ in self.items]) if self.items else False
+
+    def sym_contains(self, I, item):
+        """membership without forking: some present element equals the item"""
+        hits = []
+        for g, v in self.items:
+            eq = I.py_eq(v, item)
+            if eq is False:
+                continue
+            hits.append(g if eq is True else b_and(g, eq))
+        return b_or(*hits) if hits else False
+
     def sym_method(self, I, name, args, kw):
         if name == "append":
             g = I.current_guard()
